@@ -120,7 +120,7 @@ CHECKS['C02'] = dict(
     note='Trusted: clang lowering (libstdc++ helper templates are interpreted as IR), irdump, absint/lin, the argument '
          'contracts in checks/c02.py (iterators point into the vector at positions <= size).')
 # checks delivered with a manifest fragment under proposed/<id>/manifest.json
-FROM_PROPOSED = ['C06', 'C07', 'C09', 'C10', 'C11', 'C12', 'C19', 'C16', 'C20']
+FROM_PROPOSED = ['C06', 'C07', 'C13', 'C09', 'C10', 'C11', 'C12', 'C19', 'C16', 'C20']
 for _pid in FROM_PROPOSED:
     _m = json.load(open(os.path.join(V, 'proposed', _pid.lower(), 'manifest.json')))
     CHECKS[_pid] = dict(category=_m.get('category', 'other'), design_ref='DESIGN.md 5/%s' % _pid,
